@@ -145,7 +145,8 @@ LINTERS = {
                           knobs=[("allowed_numbers", [[], [1307], [1307, 1314], [1307, 1314, 1321], [1307, 1314, 1321, 1328, 1335]])], cli={},
                           invalid=[("max_small_integer", 0), ("max_small_integer", -5)], lang_knob="allowed_numbers"),
     "dry": dict(cmd="dry", sections=["dry"], files=_dry_files, base={"enabled": True},
-                knobs=[("min_duplicate_lines", [2, 3, 4, 5, 6, 7]), ("min_occurrences", [2, 3, 4, 5])], cli={"min_duplicate_lines": "--min-lines"},
+                knobs=[("min_duplicate_lines", [2, 3, 4, 5, 6, 7]), ("min_occurrences", [2, 3, 4, 5]), ("min_duplicate_tokens", [5, 30, 200, 5000])],
+                cli={"min_duplicate_lines": "--min-lines"},
                 invalid=[("min_duplicate_lines", 0), ("min_occurrences", 0), ("storage_mode", "cloud")], lang_knob="min_occurrences",
                 lang_knobs_extra=["min_duplicate_lines"]),  # documented per-language key without an implementation (known finding)
     "print-statements": dict(cmd="improper-logging", sections=["print-statements", "improper-logging"], files=_script_files,
